@@ -41,7 +41,23 @@ def run(tier, replay=None):
     cases, mism, _, _ = C.emit_and_replay(run, "MC_Reloader", cfg, "c15_rl_" + tier, ["reloader"], timeout=2400, workers=8)
     for m in mism:
         run.mismatch({"kind": m["mismatch"]["what"], "part": "reloader"}, m)
-    run.evaluations = len(cases) + summ["scenarios"]
+    # --- the reloader thread itself: traces of init_file's refresh thread (sleep / edit / apply events, all emitted
+    # on that thread) must be behaviours of Reloader.tla where every sleep lasts the current rate
+    ltp = os.path.join(wd, "reloadlive.ndjson")
+    nlive = 3 if tier == "quick" else 12
+    p = C.run_harness(["reloadlive", ltp, str(nlive)], timeout=900)
+    lsumm = json.loads(p.stdout.strip().splitlines()[-1])
+    if lsumm["sleeps"] == 0:
+        raise C.ToolError("instrumentation missing: no reloader.sleep hook events recorded")
+    for pr in lsumm["problems"]:
+        run.mismatch({"kind": pr["what"], "part": "reloader thread"}, pr)
+    r = C.validate_trace(run, "Trace_Reloader", "Trace_Reloader.cfg", "c15_live", ltp, timeout=900,
+                         key={"part": "reloader thread"}, linear=False)
+    if r:
+        run.states += r.distinct
+        run.transitions += r.generated
+    run.traces += nlive
+    run.evaluations = len(cases) + summ["scenarios"] + nlive
     polls = lambda c: [o for o in c["ops"] if o["op"] == "poll"]
     run.nontrivial = sum(1 for c in cases if any(o["ret"] in ("err", "stop", "rate") for o in polls(c)))
     if not run.mismatches and run.nontrivial < 100:
@@ -54,8 +70,12 @@ def run(tier, replay=None):
                 "a behaviour of Reconfig.tla; reloader: every history of <= 4 (quick) edits / polls over 2 versions x "
                 "3 rates (incl. rate removal) x 2 broken texts x deletion x touch, in YAML / JSON / TOML, replayed "
                 "through VerifReloader::run_once with explicit mtimes; non-trivial = histories with an error, a "
-                "stop or an applied change")
+                "stop or an applied change; reloader thread: 3 (quick) / 12 (thorough) scripted lifetimes of the real "
+                "init_file refresh thread with rates of 10-30 ms (rate changes, rate-only change, touch, broken text, "
+                "deletion and restoration, rate removal), validated as traces against Reloader.tla: every sleep "
+                "lasts the rate of the last applied file")
     run.assumptions = ["harness events are totally ordered by one mutex; load / max update / store are silent steps "
                        "inferred by TLC", "free-running schedules are sampled, directed ones are deterministic",
-                       "the reloader's sleep loop (run) is the spec's LoopStep; only run_once is driven here"]
+                       "the reloader histories drive run_once step by step; the sleep loop (run) is covered by the recorded "
+                       "lifetimes of the real thread, whose script is fixed (3 scripts x 3 formats)"]
     return run.finish()
